@@ -187,7 +187,25 @@ def regenerate():
     rc, out4 = sh([sys.executable, os.path.join(VERIF, 'tools', 'gen_equiv_gl.py'), os.path.join(LEAN, 'Proofs', 'GenEquivGL.lean')])
     if rc != 0:
         raise RuntimeError('gen_equiv_gl failed:\n' + out4)
+    # define_float_funcs! rows (C19)
+    rc, out5 = sh([sys.executable, os.path.join(VERIF, 'tools', 'floatfuncs.py'), os.path.join(REPO, 'kurbo', 'src', 'common.rs'),
+                   os.path.join(LEAN, 'Kurbo', 'Gen', 'FloatFuncs.lean'), '--suffix', '_g'])
+    if rc != 0:
+        raise RuntimeError('floatfuncs failed:\n' + out5)
+    sh([sys.executable, os.path.join(VERIF, 'tools', 'gen_equiv_ff.py'), os.path.join(LEAN, 'Proofs', 'GenEquivFF.lean')])
     return json.load(open(status_file))
+
+
+def ff_equiv_status():
+    rc, out = lake_build(['Proofs.GenEquivFF'])
+    status = {'FF:floatFuncRows': 'equal', 'FF:floatSignumBody': 'equal'}
+    if rc != 0:
+        bad = [int(m.group(1)) for m in re.finditer(r'error: Proofs/GenEquivFF\.lean:(\d+):', out)]
+        if not bad or 4 in bad or any(b < 5 for b in bad):
+            status['FF:floatFuncRows'] = 'proof-failed'
+        if not bad or any(b >= 5 for b in bad):
+            status['FF:floatSignumBody'] = 'proof-failed'
+    return status, out
 
 
 def lake_build(targets):
@@ -266,7 +284,8 @@ def kernel_closure(patterns):
                 if re.search(r'(?<![\w])' + re.escape(o) + r'(?![\w])', b) or re.search(r'\.' + re.escape(meth) + r'(?![\w])', b):
                     sel.add(o)
                     changed = True
-    return sorted(sel) + gl_sel
+    ff_sel = [n for n in ('FF:floatFuncRows', 'FF:floatSignumBody') if any(re.fullmatch(p, n) for p in patterns)]
+    return sorted(sel) + gl_sel + ff_sel
 
 
 def property_theorems(pid):
@@ -399,21 +418,21 @@ class EngineDied(Exception):
         super().__init__(f'engine {cmd} died after {n_out} of {len(lines)} lines: {stderr[-300:]}')
 
 
-def run_cases(cases, kvh=KVH, nproc=8, heavy=False, _depth=0):
+def run_cases(cases, kvh=KVH, nproc=8, heavy=False, _depth=0, kvh_libm=None):
     """run all lines of all cases through the engines they need; returns list of (case, outs, verdict)"""
-    per = {'I': [], 'R': [], 'F': []}
+    per = {'I': [], 'R': [], 'F': [], 'L': []}
     index = []   # per case: {engine: (start, n)}
     for c in cases:
         ix = {}
-        for eng in ('I', 'R', 'F'):
+        for eng in ('I', 'R', 'F', 'L'):
             if eng in c.need:
                 ix[eng] = (len(per[eng]), len(c.lines))
                 per[eng].extend(c.lines)
         index.append(ix)
-    cmds = {'I': [kvh], 'R': [KMODEL, 'R'], 'F': [KMODEL, 'F']}
+    cmds = {'I': [kvh], 'R': [KMODEL, 'R'], 'F': [KMODEL, 'F'], 'L': [kvh_libm or os.path.join(HARNESS, 'target-libm', 'release', 'kvh')]}
     outs = {}
     died = None
-    for eng in ('I', 'R', 'F'):
+    for eng in ('I', 'R', 'F', 'L'):
         try:
             outs[eng] = run_engine(cmds[eng], per[eng], nproc)
         except EngineDied as ex:
@@ -444,7 +463,7 @@ def run_cases(cases, kvh=KVH, nproc=8, heavy=False, _depth=0):
             if nc is not None:
                 followups.append(nc)
     if followups:
-        results += run_cases(followups, kvh=kvh, nproc=nproc, heavy=heavy, _depth=1)
+        results += run_cases(followups, kvh=kvh, nproc=nproc, heavy=heavy, _depth=1, kvh_libm=kvh_libm)
     return results
 
 
